@@ -82,6 +82,22 @@ COMMON_TB = [
 ]
 
 PROPS = {
+    "C16": {
+        "harness": "c16", "driver": "echo",
+        "lean_modules": ["BleveModel.Props.C16"],
+        "rule": ("random valid mapping trees (default and type mappings, sub-document mappings two levels deep, enabled/dynamic flags, "
+                 "1-2 field mappings per property of every kind with random store/index/term-vector/include_in_all/docvalues/"
+                 "skip_freq_norm/name/analyzer/date_format options, custom char filter, tokenizer, token map, token filters, "
+                 "analyzer and date parser, index-level type_field/default_type/default_analyzer/default_datetime_parser/"
+                 "default_field incl. empty strings, dynamic flags, scoring model) marshalled, parsed back, validated; JSON "
+                 "fixpoint over two generations; MapDocument of random documents (nested objects, arrays, numbers, booleans, dates, "
+                 "nil, unmapped and ignored values, type-field values) compared field by field incl. analysed terms and locations; "
+                 "the same through bleve.New / Close / Open. non-trivial = every comparison; distinct by rendered content"),
+        "trusted_base": COMMON_TB + ["encoding/json", "the go/ast extractor of struct tags, case arms and presets (harness/cmd/extract/codec.go)"],
+        "assumptions": ["mappings rejected by Validate are outside the property", LEVEL_NOTE],
+        "floors": {"json-fixpoint": 20, "mapdoc": 200},
+        "thorough_shards": 8,
+    },
     "C13": {
         "harness": "c13", "driver": "c13",
         "lean_modules": ["BleveModel.Props.C13"],
